@@ -22,7 +22,7 @@ ASSUMPTIONS = {
     "A1": "A1: floats are treated as mathematical reals (no rounding, overflow, nan, inf, -0.0; round() is an uninterpreted function); what this hides is what the bounded monitor looks at",
     "A2": "A2: Var equality/hash is name equality (checked by the VCs on Var.__eq__/__hash__), dict iteration order irrelevant",
     "A3": "A3: finite sums are bilinear: linear functionals are affine along segments (comb points instantiated explicitly; proved in Lean 4/Mathlib: lemmas/A3.lean theorems A3_affine_along_segments / A3_convex_combination, re-checked by bin/selftest)",
-    "A4": "A4: ideal contract of scipy.optimize.linprog(c, A_ub, b_ub, bounds=(None,None)): status in {0,2,3}; 2 iff infeasible; 3 iff feasible and unbounded; 0 => x feasible, fun = c.x minimal, slack = b - A x (assumed; the real HiGHS is exercised by the bounded monitors)",
+    "A4": "A4: ideal contract of scipy.optimize.linprog(c, A_ub, b_ub, bounds=(None,None)): status in {0,2,3}; 2 iff infeasible; 3 iff feasible and unbounded; 0 => x feasible, fun = c.x minimal, slack = b - A x; the answer depends on the problem only, not on the solver options (the retries of _solve_lp with other options are not modelled: they get the same answer) (assumed; the real HiGHS is exercised by the bounded monitors)",
     "A5": "A5: numpy array operations used by the code (array, concatenate, delete, copy, zeros, reshape, indexing, scalar multiply, isclose, where, any; linalg.norm as the non-negative root of the sum of squares) have their list/real meaning",
     "A6": "A6: sympy.solve on a square linear system returns a dict iff the solution is unique, and then every point satisfying the equations satisfies var = solution",
     "A9-repr": "A9: default float formatting (str/repr) is injective on reals (A1 excludes -0.0/nan)",
